@@ -7,7 +7,7 @@ import common
 from common import coq_str, coq_list, coq_zll, enc_str
 
 THEOREMS = ["C19_inv", "C19_history", "C19_getters", "C19_add", "C19_delete",
-            "C19_candidates_distinct", "C19_example"]
+            "C19_candidates_distinct", "C19_example", "C19_stream", "C19_stream_example"]
 
 NAME_POOLS = [
     ["a.pdf", "a_0001.pdf", "b/c", "b/c.d.e", "x"],
@@ -41,13 +41,60 @@ class ShortRaw(io.RawIOBase):
         return n
 
 
+class MemStream(io.BytesIO):
+    """an in-memory stream of a caller's own class (e.g. one that counts the bytes handed out)"""
+
+    def __init__(self, data):
+        super().__init__(data)
+        self.handed_out = 0
+
+    def read(self, n=-1):
+        r = super().read(n)
+        self.handed_out += len(r)
+        return r
+
+
+# what a caller may have consumed from the stream before handing it over (a length prefix, an earlier payload in the same
+# buffer; the second and third are themselves contents of the pool, so an exhausted stream's buffer looks like a real content)
+PREFIXES = [b"\x00\x00\x00*", b"one", b"two", b"r" * 4096]
+
+
+def _consume(f, n):
+    while n > 0:
+        got = f.read(n)
+        if not got:
+            raise AssertionError("harness: prefix longer than the stream")
+        n -= len(got)
+
+
 def stream_of(data, k):
-    """the bytes as one of the binary streams a caller may pass: BytesIO, a raw stream with short reads, a buffered reader"""
-    if k % 3 == 0 or len(data) > 4096:
-        return io.BytesIO(data)
-    if k % 3 == 1:
-        return ShortRaw(data)
-    return io.BufferedReader(ShortRaw(data), buffer_size=16)
+    """The bytes as one of the binary streams a caller may pass - BytesIO, a subclass of it, a raw stream with short reads,
+    a buffered reader, a real file - in one of the states such a stream may be in: fresh (position 0), or positioned behind
+    a prefix the caller has consumed by read() or skipped by seek().  In every case `data` is exactly what read() yields
+    from the current position, i.e. the content handed to the container (for b"": also an exhausted stream)."""
+    j = (7 * k + len(data)) % 60          # 7 is coprime to 60: the selectors 0..59 run through all kind x state x prefix cells
+    kind, state = j % 5, (j // 5) % 3
+    prefix = PREFIXES[j // 15] if state else b""
+    if len(data) > 4096 and kind in (2, 3):
+        kind = 0
+    if kind == 0:
+        f = io.BytesIO(prefix + data)
+    elif kind == 1:
+        f = MemStream(prefix + data)
+    elif kind == 2:
+        f = ShortRaw(prefix + data)
+    elif kind == 3:
+        f = io.BufferedReader(ShortRaw(prefix + data), buffer_size=16)
+    else:
+        import tempfile
+        f = tempfile.TemporaryFile()
+        f.write(prefix + data)
+        f.seek(0)
+    if state == 1 or (state == 2 and not f.seekable()):
+        _consume(f, len(prefix))
+    elif state == 2:
+        f.seek(len(prefix))
+    return f
 
 
 def gen_case(rng, maxlen):
@@ -57,8 +104,9 @@ def gen_case(rng, maxlen):
     for _ in range(n):
         if rng.random() < 0.62:
             # bias towards conflicts: few contents, few types
+            # the last component selects the file object (kind x state x consumed prefix, see stream_of) the content arrives in
             ops.append(("add", rng.choice(pool), rng.randrange(len(CONTENTS) if rng.random() < .25 else (4 if rng.random() < .5 else 2)),
-                        rng.randrange(len(CTYPES) if rng.random() < .35 else 2)))
+                        rng.randrange(len(CTYPES) if rng.random() < .35 else 2), rng.randrange(60)))
         else:
             ops.append(("del", rng.choice(pool)))
     return pool, ops
@@ -99,9 +147,9 @@ def run_sdk(pool, ops):
     for k, op in enumerate(ops):
         try:
             if op[0] == "add":
-                _, name, ci, ti = op
+                _, name, ci, ti = op[:4]
                 before = dict(ghost)
-                res = cont.add_file(name, stream_of(CONTENTS[ci], k + len(ops)), CTYPES[ti])
+                res = cont.add_file(name, stream_of(CONTENTS[ci], op[4] if len(op) > 4 else k), CTYPES[ti])
                 out = [0] + enc_str(res)
                 want = (CONTENTS[ci], CTYPES[ti])
                 if not isinstance(res, str):
@@ -169,9 +217,9 @@ class Client:
         cont, ghost = self.cont, self.ghost
         try:
             if op[0] == "add":
-                _, name, ci, ti = op
+                _, name, ci, ti = op[:4]
                 want = (CONTENTS[ci], CTYPES[ti])
-                res = cont.add_file(name, stream_of(CONTENTS[ci], len(self.ghost) + ci), CTYPES[ti])
+                res = cont.add_file(name, stream_of(CONTENTS[ci], op[4] if len(op) > 4 else len(self.ghost) + ci), CTYPES[ti])
                 if not isinstance(res, str):
                     return "add_file returned a non-string"
                 if ghost.get(name) in (None, want) and res != name:
@@ -329,7 +377,8 @@ def signature_of(msg):
     return "C19:" + m[:70]
 
 
-PRELUDE = "From Coq Require Import List ZArith String.\nFrom Basyx Require Import model.Files model.FilesObs.\nOpen Scope string_scope."
+PRELUDE = ("From Coq Require Import List ZArith String.\nFrom Basyx Require Import model.Files model.FileStreams model.FilesObs.\n"
+           "Open Scope string_scope.")
 
 
 def run(chk):
@@ -368,7 +417,9 @@ def run(chk):
         if fail:
             k, msg = fail
             small = shrink(pool, ops[:k + 1], lambda o: run_sdk(pool, o)[1] is not None)
-            msg2 = run_sdk(pool, small)[1][1]
+            if run_sdk(pool, small)[1] is None:      # the failure needs the whole history (never the case for a sequential run)
+                small = ops
+            msg2 = (run_sdk(pool, small)[1] or fail)[1]
             chk.fail(signature_of(msg2), msg2, {"pool": pool, "ops": small, "how": "tools/c19.py run_sdk(pool, ops)"})
         terms.append(coq_case(pool, ops, trace))
         if len(chk.samples) < 4 and len(ops) >= 4:
@@ -408,11 +459,26 @@ def run(chk):
         nm = "".join(rng.choice(alphabet) for _ in range(rng.randint(0, 9)))
         i = rng.choice([1, 2, 9, 10, 99, 100, 999, 1000, 1001, 4999])
         ac_terms.append(f"({coq_str(nm)}, {i}%nat, {common.coq_list(common.coq_z(x) for x in enc_str(D._append_counter(nm, i)))})")
+    # read() of positioned in-memory streams against model/FileStreams.v (position anywhere, also behind the end)
+    rd_terms = []
+    for _ in range(300 if chk.tier == "quick" else 3000):
+        b = bytes(rng.randrange(256) for _ in range(rng.randint(0, 12)))
+        p = rng.randint(0, len(b) + 2)
+        f = (io.BytesIO, MemStream)[rng.randrange(2)](b)
+        if rng.random() < .5:
+            f.seek(p)
+        else:
+            p = len(f.read(p))
+        first, second = f.read(), f.read()
+        zl = lambda bs: "(" + coq_list(common.coq_z(x) for x in bs) + " : list Z)"      # typed: an empty list alone is untypable
+        rd_terms.append(f"({zl(b)}, {p}%nat, {zl(first)}, {zl(second)})")
     bad, errs = common.run_mismatch_shards("C19", PRELUDE, terms, "check_case", shard=300)
     n1 = common.run_mismatch_shards.evaluated
     bad2, errs2 = common.run_mismatch_shards("C19ac", PRELUDE, ac_terms, "check_ac", shard=2000)
-    chk.traces = n1 + common.run_mismatch_shards.evaluated - len(bad) - len(bad2)
-    for e in errs + errs2:
+    n2 = common.run_mismatch_shards.evaluated
+    bad3, errs3 = common.run_mismatch_shards("C19rd", PRELUDE, rd_terms, "check_read", shard=2000)
+    chk.traces = n1 + n2 + common.run_mismatch_shards.evaluated - len(bad) - len(bad2) - len(bad3)
+    for e in errs + errs2 + errs3:
         chk.tie_broken("correspondence-run", e)
     if bad:
         pool, ops = cases[bad[0]]
@@ -425,17 +491,22 @@ def run(chk):
         tr, _ = run_sdk(pool, small)
         model = common.coq_eval("C19", PRELUDE, "trace init " + coq_list(coq_op(o) for o in small) + " " + coq_list(coq_str(n) for n in pool))
         chk.tie_broken("correspondence", {"n_disagreements": len(bad), "pool": pool, "ops": small, "sdk_trace": tr, "model_trace": model})
+    if bad3:
+        chk.tie_broken("correspondence-stream-read", {"n": len(bad3), "first": rd_terms[bad3[0]]})
     if bad2:
         chk.tie_broken("correspondence-append_counter", {"n": len(bad2), "first": ac_terms[bad2[0]]})
     chk.trusted = [
         "Coq 8.16.1 kernel (coqc, vm_compute for the Example and the correspondence; no native_compute)",
-        "hand-written model coq/theories/model/Files.v tied to aasx.py by this correspondence run",
+        "hand-written model coq/theories/model/Files.v (+ FileStreams.v: data = file.read() of a positioned stream) tied to aasx.py "
+        "by this correspondence run",
         "SHA-256 injective on the contents used (the model keys the content store by the content token)",
         "tools/c19.py (generator, SDK driver, canonicaliser, dict oracle), tools/common.py",
     ]
-    chk.assumptions = ["sha256 collision freedom", "file-like objects return their bytes from read()"]
+    chk.assumptions = ["sha256 collision freedom", "the content supplied by a file-like object is what its read() returns from the current position"]
     return chk.finish(level="proof",
                       rule="seeded random add/delete sequences over 8 name pools x 9 contents (sizes 0 B - 128 KiB) x 6 content types (case / parameter variants), "
+                           "contents handed over as 5 kinds of stream (BytesIO, a subclass, short-read raw, buffered, real file) x 3 states "
+                           "(fresh, behind a prefix consumed by read(), behind a prefix skipped by seek(); exhausted for empty content), "
                            "each also under three sparser observation schedules and pairwise interleaved on two live containers "
                            "(+ all sequences of length<=4 over 10 ops in the thorough tier); non-trivial = at least 2 ops; "
                            "distinct by (pool, ops)")
